@@ -44,6 +44,7 @@ class Ctx:
         self.intlike = F("intlike", Id, B)
         self.int_of = F("int_of", Id, I)
         self.id_of_int = F("id_of_int", I, Id)
+        self.is_int = F("is_int", Id, B)  # isinstance(x, int) (or a numpy integer): implies intlike, not implied by it (0.0)
         self.is_str = F("is_str", Id, B)
         self.is_tuple = F("is_tuple", Id, B)
         self.is_list = F("is_list", Id, B)
@@ -70,6 +71,7 @@ class Ctx:
         self.strs = {}
         self.axioms += [
             z3.Not(self.intlike(self.NONE)),
+            z3.Not(self.is_int(self.NONE)),
             z3.Not(self.is_str(self.NONE)),
             z3.Not(self.is_tuple(self.NONE)),
             z3.Not(self.is_list(self.NONE)),
@@ -117,6 +119,7 @@ class Ctx:
                                        self.hashable(t), z3.Not(self.iterable(t)), t != self.NONE,
                                        self.truthy(t) == (self.int_of(t) != 0),
                                        self.id_of_int(self.int_of(t)) == t)))
+        A.append(z3.Implies(self.is_int(t), il))
         A.append(z3.Implies(self.is_str(t), z3.And(self.hashable(t), self.iterable(t), z3.Not(self.one_shot(t)),
                                                    z3.Not(self.is_tuple(t)), z3.Not(self.is_list(t)),
                                                    z3.Not(self.is_dict(t)), self.elems_hashable(t))))
@@ -144,7 +147,7 @@ class Ctx:
         if key not in self._seen_val and not self._in_quant:
             self._seen_val.add(key)
             self._keep.append(t)
-            self.axioms += [self.intlike(t), self.int_of(t) == i]
+            self.axioms += [self.intlike(t), self.int_of(t) == i, self.is_int(t)]
             self.val(t)
         return t
 
